@@ -32,7 +32,7 @@ _TIER = {"v": "quick"}
 
 
 def budget(tier):
-    return 100 if tier == "quick" else 1500
+    return 1000 if tier == "quick" else 20000
 
 
 def point_cap(tier):
